@@ -77,6 +77,7 @@ def main(argv=None):
     ap.add_argument("--shard", type=int, default=None, help="debug: run only this shard index")
     ap.add_argument("--no-evidence", action="store_true")
     ap.add_argument("--timing", action="store_true", help="print the slowest shards")
+    ap.add_argument("--all", action="store_true", help="also list the signatures beyond the first 10 violations")
     ap.add_argument("--filter", default=None, help="debug: only shards whose repr contains this text (never writes evidence)")
     a = ap.parse_args(argv)
     tier = a.tier or os.environ.get("VERIF_TIER") or "quick"
@@ -181,6 +182,9 @@ def main(argv=None):
         else:
             fresh.append(v)
     rc = 0
+    if a.all and len(fresh) > 10:
+        for v in fresh[10:]:
+            print("  (further) signature:", v["sig"])
     for v in fresh[:10]:
         path = core.write_replay(pid, v)
         print("  signature:", v["sig"])
